@@ -133,6 +133,20 @@ def make_lines(case, us):
     return "sis %d %s" % (seed, body), "sis " + body
 
 
+def parse_line(line):
+    """corpus line (a harness line) -> case tuple"""
+    t = line.split()
+    seed, n, lin, circ, K, D = [int(x) for x in t[1:7]]
+    p = 7 + D
+    w0 = [unhex(x) for x in t[p:p + n]]; p += n
+    x0 = [unhex(x) for x in t[p:p + n]]; p += n
+    steps = []
+    for _ in range(K):
+        cmd, fr, va = int(t[p]), int(t[p + 1]), int(t[p + 2]); p += 3
+        steps.append((cmd, fr, va, [unhex(x) for x in t[p:p + n]], "corpus")); p += n
+    return (seed, n, lin, circ, w0, x0, steps), {"n": n, "lin": lin, "circ": circ, "K": K, "mode": "corpus", "init": "corpus", "seed": seed}
+
+
 # --------------------------------------------------------------------------- parsing
 
 def parse_blocks(tokens, with_x):
@@ -332,11 +346,21 @@ def check_history(case, meta, h, d, stats, hist):
 
 def run(ctx):
     ctx.proof_stage()
+    if not ctx.quick():
+        bad = vlib.leanchecker(['BFL.Props.C06', 'BFL.Proofs.SIS', 'BFL.Model.SIS', 'BFL.Model.Resample'])
+        ctx.coverage["leanchecker"] = "failed: %s" % bad if bad else "all modules re-checked"
+        if bad:
+            ctx.violation("leanchecker", "leanchecker rejects compiled modules: %s" % bad, {"modules": bad}, no_input=True)
     binary = vlib.build_harness("h_pf")
     g = ctx.gen("sis")
     r = g.r
-    n_hist = ctx.n(260, 5000)
+    n_hist = ctx.n(700, 5000)
     cases = []
+    corpus = vlib.VERIF / "corpus" / "C06" / "cases.txt"
+    if corpus.exists():
+        for ln in corpus.read_text().split("\n"):
+            if ln.strip() and not ln.startswith("#"):
+                cases.append(parse_line(ln.strip()))
     for forced in ["n3-onehot"] * 4 + ["n3-init-onehot"] * 2 + ["n6-twohot"] * 2 + ["init-peaked"] * 4 + ["circ-resample"] * ctx.n(12, 100):
         cases.append(gen_history(r, ctx.tier, forced))
     cases += [gen_history(r, ctx.tier) for _ in range(n_hist)]
@@ -348,7 +372,6 @@ def run(ctx):
         hl, dl = make_lines(case, us)
         hlines.append(hl)
         dlines.append(dl)
-    corpus = vlib.VERIF / "corpus" / "C06" / "cases.txt"
     hout, logs = vlib.run_harness(binary, hlines)
     dout = vlib.run_driver(dlines)
     stats, hist, modes, distinct = {}, {}, {}, set()
